@@ -19,7 +19,7 @@ TIME = {'quick': 100, 'thorough': 1200}
 
 @st.composite
 def cases(draw, tier='quick'):
-    dom = draw(gen.domains(1, 5, 1, 6, cap=4096))
+    dom = draw(gen.domains(1, 5 if tier == 'quick' else 7, 1, 6 if tier == 'quick' else 9, cap=4096 if tier == 'quick' else 60000))
     attrs = dom['attrs']
     n = draw(st.one_of(st.sampled_from([0, 1, 2]), st.integers(0, 200), st.integers(3, 200), st.integers(3, 60)))
     case = {
